@@ -1369,8 +1369,8 @@ theorem elements_from_only_served (b : DBackend α H) (viewSize idx1 maxCount : 
       ∃ p, satSub idx1 1 ≤ p ∧ p < viewSize ∧ vGetData b viewSize p = some x := by
   intro x hx
   unfold vElementsFrom at hx
-  obtain ⟨t, ht, hserved⟩ := elemsLoop_prefix b viewSize maxCount (maxPos.getD viewSize)
-    (maxPos.getD viewSize + 1) (satSub idx1 1) []
+  obtain ⟨t, ht, hserved⟩ := elemsLoop_prefix b viewSize maxCount (elemsBound viewSize maxPos)
+    (elemsBound viewSize maxPos + 1) (satSub idx1 1) []
   simp only at hx
   rw [ht, List.nil_append] at hx
   obtain ⟨p, hp, hq⟩ := hserved x hx
@@ -1378,6 +1378,16 @@ theorem elements_from_only_served (b : DBackend α H) (viewSize idx1 maxCount : 
   cases Nat.lt_or_ge p viewSize with
   | inl h => exact h
   | inr h => rw [vGetData_none b viewSize p (Or.inl h)] at hq; cases hq
+
+/-- **`elements_from_pmmr_index` never walks beyond the MMR** (repair 565fae636): whatever upper
+bound the caller passes, the returned "last index" is at most the view's size when the start index
+is — before the repair a bound beyond the size made the loop walk to it -/
+theorem elements_from_stops_at_size (b : DBackend α H) (viewSize idx1 maxCount : Nat) (maxPos : Option Nat)
+    (h : satSub idx1 1 ≤ elemsBound viewSize maxPos) :
+    (vElementsFrom b viewSize idx1 maxCount maxPos).1 ≤ viewSize := by
+  unfold vElementsFrom
+  exact Nat.le_trans (elemsLoop_idx_le b viewSize maxCount (elemsBound viewSize maxPos)
+    (elemsBound viewSize maxPos + 1) (satSub idx1 1) [] h) (elemsBound_le viewSize maxPos)
 
 end viewdata
 
